@@ -157,6 +157,15 @@ def generate(rng, tier):
         nodes = [[(h[0] * sc, h[1] * sc) for h in nd] for nd in _nodes(rng, "grid")]
         flat = F(rng.choice([1, 2, 4, 8, 16])) / rng.choice([1, 2, 4]) * sc
         cases.append({"nodes": nodes, "flat": flat, "exact": True, "family": "scaled-by-2^%d" % k})
+    # closed loops as editors write them: the last node is a copy of the first (same point, same two handles), three or more nodes, handles
+    # long enough for the first and the last piece to be split; every original node keeps its outer handles
+    for _ in range(max(10, n // 20)):
+        nodes = _nodes(rng, "grid")
+        while len(nodes) < 2: nodes = _nodes(rng, "grid")
+        p = nodes[0][1]; d = (F(rng.randint(-12, 12), 1) or F(5), F(rng.randint(-12, 12), 1))
+        first = [(p[0] - d[0], p[1] - d[1]), p, (p[0] + d[0], p[1] + d[1])]
+        nodes = [first] + nodes[1:] + [[first[0], first[1], first[2]]]
+        cases.append({"nodes": nodes, "flat": F(rng.choice([1, 2, 4])) / rng.choice([1, 2, 4, 8]), "exact": True, "family": "closed-loop/last-node-copies-first"})
     for _ in range(n // 6):
         nodes = _far_nodes(rng)
         cases.append({"nodes": nodes, "flat": F(1, 2 ** rng.choice([13, 12, 11, 10])), "exact": True, "family": "far-from-origin/n=%d" % len(nodes)})
